@@ -101,6 +101,17 @@ def _run_units(cfg, scratch, support_dir, tier, seed):
             R.snapshot(scratch)
             ur = R.run_unit(u, scratch, support_dir, tier, seed + 17 * tries, rlimit=30 * 2 ** tries)
             att = R.attribute(ur)
+        # `.summary` clauses restate a function's attributed clauses as the one predicate its callers use (derived, nothing of their
+        # own): a failed summary next to a failed attributed clause of the same fn is that failure again and is dropped; a summary
+        # that fails ALONE can only be solver incompleteness and counts as a resource-out (undecided), never as a violation
+        att2 = []
+        for a in att:
+            if a['kind'] == 'verification' and (a.get('ob') or '').split('|')[0].endswith('.summary'):
+                if any(b is not a and b['fn'] == a['fn'] and b['kind'] == 'verification' and not (b.get('ob') or '').split('|')[0].endswith('.summary') for b in att):
+                    continue
+                a = dict(a); a['kind'] = 'resource'
+            att2.append(a)
+        att = att2
         ur.attributed = att
         # thorough: seed stability - the same unit under two other solver seeds; functions whose verdict flips are listed (reported,
         # not an exit-code matter: the primary run decides)
@@ -229,7 +240,7 @@ def _check(prop, cfg, tier, seed, scratch, t0):
             if fr is None:
                 undecided.append('census: lifted fn %s was not checked by Verus' % f['key'])
                 continue
-            my_clauses = [c for c in f['clauses'] if prop == c.split('|')[0].split('.')[0] or prop in c.split('|')[1:]]
+            my_clauses = [c for c in f['clauses'] if (prop == c.split('|')[0].split('.')[0] or prop in c.split('|')[1:]) and not c.split('|')[0].endswith('.summary')]   # summaries are derived, not counted
             impl_mine = prop in (f.get('implicit') if f.get('implicit') is not None else f.get('props') or [])
             seen_fn_keys.add(f['key'])
             row = {'fn': f['key'], 'file': '%s:%d' % (f['file'], f['line']), 'verus_name': jn, 'rules': f['rules'],
